@@ -66,8 +66,31 @@ fn parse_line(b: &[u8]) -> String {
                     Ok(v) => format!("Ok({v})"),
                     Err(e) => format!("Err({e})"),
                 };
+                // comparison with the text as spelled in the input (true only for a canonical spelling), and
+                // the raw-representation route for a language subtag (the integer of the lower-cased text)
+                let streq = format!(
+                    "{}{}{}{}{}",
+                    li.as_ref().map_or(2, |v| (*v == s) as u8),
+                    s.parse::<Language>().map_or(2, |v| (v == s) as u8),
+                    s.parse::<Script>().map_or(2, |v| (v == s) as u8),
+                    s.parse::<Region>().map_or(2, |v| (v == s) as u8),
+                    s.parse::<Variant>().map_or(2, |v| (v == s) as u8)
+                );
+                let raw = match s.parse::<Language>() {
+                    Ok(parsed) => {
+                        let mut le = [0u8; 8];
+                        for (i, c) in s.bytes().enumerate() {
+                            le[i] = c.to_ascii_lowercase();
+                        }
+                        // sound: the bytes are a valid (lower-case ASCII, zero-padded) subtag text
+                        let l = unsafe { Language::from_raw_unchecked(u64::from_le_bytes(le)) };
+                        let back: Option<u64> = l.into();
+                        format!("{}/{}/{}/{:?}/{}/{:?}", l.as_str(), l.is_empty(), l == parsed, l.cmp(&parsed), l.matches(parsed, true, false), back)
+                    }
+                    Err(_) => "-".into(),
+                };
                 format!(
-                    "{}|{}|{}|{}|{}|{}|{}|{}",
+                    "{}|{}|{}|{}|{}|{}|{}|{}|streq={streq}|raw={raw}",
                     show(s.parse::<Locale>().map(|v| v.to_string()).map_err(|e| format!("{e:?}"))),
                     show(s.parse::<LanguageIdentifier>().map(|v| v.to_string()).map_err(|e| format!("{e:?}"))),
                     show(s.parse::<unic_locale::extensions::ExtensionsMap>().map(|v| v.to_string()).map_err(|e| format!("{e:?}"))),
